@@ -310,6 +310,11 @@ class Tr:
                 if f.attr == "nunique":
                     return self.lift([v], lambda a: ("(nunique %s)" % a[0], "Z", False))
                 return self.lift([v], lambda a: ("(isort %s)" % a[0], "L", False))
+        if callee == "_contains_strings" and len(e.args) == 1 and not e.keywords:
+            self.facts.require_contains_strings()
+            v = self.ex(e.args[0], env)
+            self.need(v[1], "SQ", e)
+            return self.lift([v], lambda a: ("(seq_has_str %s)" % a[0], "B", False))
         if callee == "_check_values" and len(e.args) == 1 and not e.keywords:
             v = self.ex(e.args[0], env)
             self.need(v[1], "IN", e)
@@ -644,6 +649,15 @@ class Facts:
             raise Unsupported("%s is no longer delegated to the wrapped index" % name)
         if name in self.methods:
             raise Unsupported("%s is now defined on the class itself" % name)
+
+    def require_contains_strings(self):
+        """Helper of the proposed fix for F-C02-1; modelled as Model.seq_has_str."""
+        fn = find(self.mod, "_contains_strings")
+        body = [ast.unparse(x) for x in fn.body if not is_docstring(x)]
+        want = ["return any((isinstance(v, (str, bytes)) for v in "
+                "np.asarray(values, dtype=object).ravel()))"]
+        if [a.arg for a in fn.args.args] != ["values"] or body != want:
+            raise Unsupported("_contains_strings shape: %s" % body)
 
     def require_method(self, name):
         if name not in self.methods:
